@@ -213,7 +213,51 @@ def h_shipped(ctx: Ctx, cfg):
         ctx.require(got == exp, clause, {"grammar": label, "reported": got, "reachable": exp})
 
 
-HARNESSES = {"shipped": h_shipped, "tables": h_tables, "usable": h_usable, "min_depth_lower_bound": h_min_depth_lower_bound, "min_depth_witness": h_min_depth_witness, "recursion": h_recursion}
+def h_family(ctx: Ctx, cfg):
+    """generated family of hierarchies (plain enumeration of the outer quantifier): productions,
+    minimum depths (both counting modes), recursive set and usable sub-grammar vs the oracle"""
+    from geneticengine.grammar.grammar import extract_grammar
+
+    from vf.fixtures import family
+
+    def work():
+        bad = []
+        n = 0
+        for label, classes, start in family.hierarchies(stride=cfg.get("stride", 1)):
+            n += 1
+            for exp in (False, True):
+                try:
+                    g = extract_grammar(list(classes), start, exp)
+                except Exception as e:  # noqa
+                    bad.append(("analysis:extract_grammar-raises", {"grammar": label, "error": type(e).__name__ + ": " + str(e)[:80]}))
+                    continue
+                a = OG.Analysis(classes, start, expansion_depthing=exp)
+                a_ne = OG.Analysis(classes, start, expansion_depthing=exp, lists_transparent_nonempty=True)
+                for s in a.symbols:
+                    rd = g.distanceToTerminal.get(s)
+                    if rd != a.min_depth[s]:
+                        bad.append((_depth_clause(rd, s, a, a_ne), {"grammar": label, "expansion_depthing": exp, "symbol": s.__name__, "reported": rd, "shallowest": a.min_depth[s]}))
+                    if (s in g.recursive_prods) != (s in a.recursive):
+                        bad.append(("analysis:recursive-set-wrong", {"grammar": label, "symbol": s.__name__, "reported": s in g.recursive_prods}))
+                    if OT.is_abstract(s) and sorted(c.__name__ for c in g.alternatives.get(s, [])) != sorted(c.__name__ for c in a.productions(s)):
+                        bad.append(("analysis:productions-differ-from-direct-subtypes", {"grammar": label, "symbol": s.__name__, "reported": [c.__name__ for c in g.alternatives.get(s, [])]}))
+                try:
+                    u = g.usable_grammar()
+                    got = sorted(c.__name__ for c in u.all_nodes if isinstance(c, type) and c not in OT.BASE)
+                    if got != sorted(c.__name__ for c in a.symbols):
+                        bad.append(("analysis:usable_grammar-symbols-differ-from-reachable-set", {"grammar": label, "reported": got}))
+                except Exception as e:  # noqa
+                    bad.append(("analysis:usable_grammar-raises", {"grammar": label, "error": type(e).__name__}))
+        return n, bad
+
+    n, bad = ctx.concrete(work)
+    ctx.note("hierarchies", n)
+    ctx.reached()
+    for clause, detail in bad:
+        ctx.require(False, clause, detail)
+
+
+HARNESSES = {"family": h_family, "shipped": h_shipped, "tables": h_tables, "usable": h_usable, "min_depth_lower_bound": h_min_depth_lower_bound, "min_depth_witness": h_min_depth_witness, "recursion": h_recursion}
 
 CORPUS = [("f14", None), ("f11", None), ("f12", None), ("f13", None), ("f9", None), ("f10", None), ("f3n", None), ("f8", None), ("f0", None), ("f1", None), ("f2", None), ("f2b", None), ("f3", None), ("f3b", None), ("f4", None), ("f5", None), ("f5ctx", None), ("f6", None),
           ("f7", "grammar_tuple"), ("f7", "grammar_tuple2"), ("f7", "grammar_union"), ("f7", "grammar_list"), ("f7", "grammar_mutual")]
@@ -231,6 +275,7 @@ def obligations(tier: str):
         obs.append(Ob("tables", dict(cfg, expansion_depthing=True), name=f"tables_expdepth_{tag}", timeout=60, smoke=1))
         obs.append(Ob("usable", dict(cfg), name=f"usable_{tag}", timeout=60, smoke=1))
     obs.append(Ob("usable", {"fixture": "f4", "grammar_fn": "grammar_with_unreachable"}, name="usable_f4_drops_unreachable", timeout=60, smoke=1))
+    obs.append(Ob("family", {"stride": 1 if T else 3}, name="tables_generated_family", timeout=300, smoke=0))
     obs.append(Ob("shipped", {"roots": ["tests"], "at_least": 20}, name="tables_shipped_tests", timeout=200, smoke=0, twin=False))
     obs.append(Ob("shipped", {"roots": ["examples", "geml"], "at_least": 10}, name="tables_shipped_examples", timeout=400, smoke=0, twin=False))
     # solver-backed inner quantifiers
